@@ -258,6 +258,9 @@ func genC13(seed uint64, tier string, outdir string) *Report {
 		h := int64(rg.Intn(3))
 		for b := 0; b < 1+rg.Intn(nBlocks); b++ {
 			h++
+			if rg.Chance(10) { // the block pre-executed on a discarded branch: no effect
+				r.Do(TVOp{Kind: "dryblock", H: h})
+			}
 			r.Do(TVOp{Kind: "begin", H: h})
 			for j := rg.Intn(5); j > 0; j-- {
 				r.Do(randValOp(rg, r, 5, 5, keep))
